@@ -162,6 +162,8 @@ structure Sys where
       ACK flag, and the device of every assembled frame that carried the ACK flag. -/
   ackSets : List Bytes := []
   ackFrames : List Bytes := []
+  /-- …and for payloads: (device, plaintext FRMPayload) of every data downlink handed to the gateway. -/
+  emittedPl : List (Bytes × Bytes) := []
   deriving Repr, Inhabited
 
 def Sys.init (db : DB) : Sys := { db := db, fob := [], scheduled := [], threads := [], emitted := [], published := [], now := 1 }
@@ -503,7 +505,8 @@ def stepEncoder (E D : BlockFn) (sys : Sys) (pc : Nat) (p : PHY) (c : Ctx) (byte
       let sys := if fault then sys else { sys with db := sys.db.setSent c.device.eui c.payloadCreate sys.now c.device.fcntUp, now := sys.now + 1 }
       (sys, [.encoder 2 p c bytes])
     | _ => ({ sys with emitted := sys.emitted ++ [⟨bytes, c.gw, 1, c.device.eui⟩],
-                       emittedDn := sys.emittedDn ++ [(c.device.eui, p.mac.fhdr.fcnt)] }, [.done])
+                       emittedDn := sys.emittedDn ++ [(c.device.eui, p.mac.fhdr.fcnt)],
+                       emittedPl := sys.emittedPl ++ [(c.device.eui, p.mac.frm)] }, [.done])
   else (sys, [.done])
 
 /-- The scheduler takes a notification: duplicate if the device has a send in flight. -/
